@@ -182,6 +182,7 @@ func c18Ctx(t *rapid.T) Ctx {
 	c.Set("pst", ZT(Hash([]string{"Name", "Tags"}, []*E{Str("pn"), List(Str("q2"), Str("q1"))}), "ptrstruct"))
 	// pointers to structs that embed another struct through a nil pointer (reading a promoted field
 	// must not fill the pointer in)
+	c.Set("deep", Hash([]string{"a", "l"}, []*E{Hash([]string{"b", "b2"}, []*E{Hash([]string{"c"}, []*E{Int(1)}), Hash([]string{"c"}, []*E{Int(2)})}), List(Hash([]string{"x"}, []*E{Int(0)}))}))
 	c.Set("pe", ZT(Hash(nil, nil), "ptrembed"))
 	c.Set("pes", ZT(Hash(nil, nil), "ptrembedlist"))
 	c.Set("pe_set", ZT(Hash([]string{"City"}, []*E{Str("Oslo")}), "ptrembed"))
@@ -235,7 +236,7 @@ func genC18(t *rapid.T) (C18Case, []string) {
 	np := rapid.IntRange(1, 4).Draw(t, "nparts")
 	for i := 0; i < np; i++ {
 		coll := rapid.SampledFrom(c18Colls).Draw(t, "coll")
-		switch rapid.IntRange(0, 12).Draw(t, "form") {
+		switch rapid.IntRange(0, 14).Draw(t, "form") {
 		case 0, 1, 2:
 			parts = append(parts, "{{ "+c18Chain(t, coll)+"|"+rapid.SampledFrom(c18Ends).Draw(t, "end")+" }}")
 			cl = append(cl, "filter-chain")
@@ -263,6 +264,18 @@ func genC18(t *rapid.T) (C18Case, []string) {
 			mp := rapid.SampledFrom([]string{"m", "nest", "m_alias"}).Draw(t, "importalias")
 			parts = append(parts, "{{ "+mp+"|keys|join(',') }}{% import 'lib' as "+mp+" %}{{ "+mp+".tag(1) }}")
 			cl = append(cl, "import-alias-collides-with-context-map")
+		case 13:
+			// assignments to a dotted target (whatever the engine takes them to mean, the caller's
+			// nested maps and lists stay as they were)
+			// (one target per case: an engine may reject some of them, and a failed render writes nothing more)
+			tgt := rapid.SampledFrom([]string{"deep.a.b = 2", "deep.a.b2.c = 3", "deep.a.newkey = 4", "deep.l.x = 1", "nest.inner = [1]", "m.b = 55", "yaml.cfg.host = 'x'", "nest.k = nest.k", "dict.z = 9", "st.Name = 'n'", "deep.a.b.c = deep.a.b2", "m_alias.a = 1"}).Draw(t, "dottedtarget")
+			parts = append(parts, "{% set "+tgt+" %}{{ deep.a.b is iterable ? 'it' : deep.a.b }}{{ nest.inner|join(',') }}{{ m.b }}{{ yaml.cfg.host }}")
+			cl = append(cl, "dotted-set-target")
+		case 14:
+			// a conditional loop in the syntax of upstream Twig 1/2 (an engine that does not know it
+			// rejects the template: then nothing ran and nothing may have changed)
+			parts = []string{"{% for q in " + coll + " if q > 2 %}{{ q }}{% endfor %}{% for q in xs if q is odd %}{{ q }}{% endfor %}{% for k, v in m if v > 1 %}{{ k }}{% endfor %}"}
+			cl = append(cl, "for-if")
 		case 12:
 			parts = append(parts, "{{ pe.City }}{{ pe.City is defined ? 'd' : 'u' }}{{ pe.Zip|default('z') }}{{ pe.Name }}{% for q in pes %}{{ q.Zip }}{{ q.City|default('-') }}{% endfor %}{{ pe_set.City }}{% set fill003 = 9 %}{% set brandnew = 1 %}{% for fill005 in [1, 2] %}{% endfor %}{{ fill003 }}")
 			cl = append(cl, "nil-embedded-pointer")
